@@ -99,6 +99,28 @@ CLAIMED = {
    note="Partial: the whole-scan exactness theorem (positions under truncation) is not proved, only its per-chunk core; file immutability is "
         "checked by comparing the file before/after each SCAN op (the model has no write operation).",
    technique="Lean 4 proof (partial: unfolding lemmas on the validator models) + differential correspondence over exhaustive damage subsets"),
+ 'C16': dict(
+   text="Machine-checked proof (Lean 4) about the chunker model (automatic branch of zck_write with the buzhash state generated from the "
+        "source, zck_end_chunk, comp_init limits): every segmentation of the same content yields the same chunks; chunks finished within a "
+        "shared prefix are finished chunks of both outputs and account for the prefix; writers with equal chunk-in-progress and hash state "
+        "produce identical further chunks (resynchronisation); every automatically finished chunk has auto_min <= size <= auto_max; the "
+        "effective limits satisfy min <= auto_min <= auto_max <= max. Tied to the code by WRITE ops: byte-identical files across "
+        "segmentations and repeated runs (none and zstd), chunk sizes equal to the model's, and prefix/suffix locality of the real "
+        "per-chunk (digest, stored size, size) lists under edits.",
+   design_ref="DESIGN.md section 7 C16",
+   note="The model is per byte; that the C code's batching is equivalent is validated by correspondence. zstd byte-identity rests on libzstd "
+        "determinism (checked on real outputs, not proved). Termination of the re-examination loop is not proved.",
+   technique="Lean 4 proof (accumulator/append lemmas over the per-byte chunker, induction over content) + differential correspondence and cross-run comparison"),
+ 'C01': dict(
+   text="Partial proof (Lean 4): for every legal configuration and every sequence of write/end-chunk calls (manual or automatic) the data "
+        "chunks of the closed file concatenate to exactly the bytes written (nothing lost - incl. a final chunk below the minimum -, "
+        "duplicated or reordered). The rest of the round trip (header creation, compression, validation, read-back under buffer-size "
+        "sequences) is exercised end to end: every WRITE case re-opens, validates and reads back the produced file; the zck/unzck tools are "
+        "run on inputs with the split string at every alignment around 32 KiB block edges, and the real tool's chunk structure is compared "
+        "with the Lean model of its split scanner.",
+   design_ref="DESIGN.md section 7 C01",
+   note="Partial: write-path termination and the scanner's byte-preservation are not theorems (fuel / evaluated per case); codec round trip assumed.",
+   technique="Lean 4 proof (accounting invariant over API calls, fuel-sufficiency for the manual split loop) + differential correspondence incl. real CLI tools"),
 }
 
 NOT_YET = "machinery for this property is not built yet in this snapshot (work in progress; see DESIGN.md section 11 build order)"
